@@ -202,11 +202,24 @@ func (s *SourceControl) ConfigureRoachSource(args *RoachSourceConfig, reply *boo
 // run the closure f at an appropriate point in the data handling cycle
 // and return any error sent on s.queuedRequests.
 func (s *SourceControl) runLaterIfActive(f func()) error {
+	// The source may have ended by itself (error block, time-out) since the last request;
+	// then nobody is left to take requests off the queue.
+	s.handlePossibleStoppedSource()
 	if !s.isSourceActive {
 		return fmt.Errorf("no source is active")
 	}
-	s.queuedRequests <- f
-	return <-s.queuedResults
+	for {
+		select {
+		case s.queuedRequests <- f:
+			return <-s.queuedResults
+		case <-time.After(100 * time.Millisecond):
+			// Not taken yet: check that the source's core loop is still there to take it.
+			s.handlePossibleStoppedSource()
+			if !s.isSourceActive {
+				return fmt.Errorf("no source is active")
+			}
+		}
+	}
 }
 
 // MixFractionObject is the RPC-usable structure for ConfigureMixFraction
